@@ -728,7 +728,9 @@ func (cs *ConsensusState) handleMsg(mi msgInfo, rs RoundState) {
 		err = cs.setProposal(msg.Proposal)
 	case *BlockPartMessage:
 		// if the proposal is complete, we'll enterPrevote or tryFinalizeCommit
-		_, err = cs.addProposalBlockPart(msg.Height, msg.Part, peerKey != "")
+		// always verify the part's proof, also for our own parts: ProposalBlockParts may meanwhile have been
+		// re-created for another block (polka or commit for a block we do not have)
+		_, err = cs.addProposalBlockPart(msg.Height, msg.Part, true)
 		if err != nil && msg.Round != cs.Round {
 			err = nil
 		}
